@@ -289,6 +289,19 @@ class ExecSlice:
                                                         "broken": lambda t: t.name.startswith("U")}),
                       "attrs": {"shutdown": ("field",), "broken": ("field",), "kill_workers": ("field",),
                                 "shutdown_lock": ObjRef("shutdown_lock")}}
+        # the fused reads above are only sound if every write of a flag happens under the shutdown lock: a ghost
+        # records a write made while the lock is free (checked as a safety clause of every executor slice)
+        S.declare("g.flag_written_unlocked", "bool", False)
+        fm = O["flags"]["model"]
+        base_outcomes = fm.outcomes
+
+        def flag_outcomes(method, args, kwargs, t, S_):
+            outs = base_outcomes(method, args, kwargs, t, S_)
+            if method.startswith("set:"):
+                for o in outs:
+                    o.updates["g.flag_written_unlocked"] = z3.Or(S_["g.flag_written_unlocked"], S_["shutdown_lock.v"] != 0)
+            return outs
+        fm.outcomes = flag_outcomes
         O["bpe"] = {"attrs": {}}
         # the executor object and the manager thread's view of it
         O["ex"] = {"cls": "ProcessPoolExecutor",
